@@ -57,7 +57,8 @@ class JSExec(GoExec, SpecMixin, CallsMixin):
         self.jscontracts = {}
         for c in spec.contracts:
             if c.kind == 'js':
-                self.jscontracts[c.key.split()[-1]] = c
+                ps = c.key.split()
+                self.jscontracts.setdefault(ps[1] if len(ps) >= 2 else ps[0], c)
         self.throws = []
 
     # ------------------------------------------------------------------ number algebra
@@ -724,6 +725,8 @@ class JSExec(GoExec, SpecMixin, CallsMixin):
     def spec_binds(self, st):
         """JS locals are visible to contract expressions under their own names"""
         b = {}
+        if self.mode == 'bv':
+            b['$bvw'] = 64; b['$signed'] = True
         for k, v in st.env.items():
             b[k] = self.to_spec(st, v)
         return b
@@ -804,13 +807,13 @@ class JSExec(GoExec, SpecMixin, CallsMixin):
 
     def verify_js(self, c):
         parts = c.key.split()
-        file, name = (parts[0], parts[1]) if len(parts) == 2 else (None, parts[0])
+        file, name = (parts[0], parts[1]) if len(parts) >= 2 else (None, parts[0])
         fn, f = self.find_func(name, file)
         if fn is None:
             raise Unsupported('JS function %s not found (contract does not bind)' % c.key)
         reset_fresh()
         self.known_ranges = {}
-        fr = Frame(name, fn, c)
+        fr = Frame(' '.join(parts[1:]) if len(parts) >= 2 else name, fn, c)
         fr.loops = self.number_js_loops(fn)
         self.frame = fr
         self.loop_cache = {}
@@ -829,6 +832,11 @@ class JSExec(GoExec, SpecMixin, CallsMixin):
         for cl in c.get('ghost'):
             self.ghost_assign(st, SpecEnv(st, self.spec_binds(st), None), cl)
         entry = st.clone(); st.entry = entry; entry.entry = entry
+        try:
+            from .jsreplay import JSReplayer
+            fr.replayer = JSReplayer(self, name, c, fn, entry, ptypes)
+        except Exception:
+            fr.replayer = None
         env = SpecEnv(st, self.spec_binds(st), entry)
         for cl in c.get('requires'):
             st.pc.append(self.sev_bool(env, cl.expr))
